@@ -154,3 +154,101 @@ def m_einsum_act(ex, st, args, kwargs, node):
     if key == 'rmq,m->rq' and len(ops) == 2 and is_wvec(ops[1]) and getattr(ops[1], 'wt', None) is None:
         ops[1].wt = ops[1].t          # the einsum model of models.py reads the entries of p from `.wt`
     return _orig_einsum(ex, st, args, kwargs, node)
+
+
+# ----------------------------------------------------------------------------------------------
+# dense export (transformation.full): np.tensordot(Z, G, 1) along a list of cores of concrete length
+#
+# A VArr with tag 'tdot' denotes the contraction of a chain of cores G_0, ..., G_{k-1} (its `t` is the tuple of their Core terms):
+#     Z[a, i_0, ..., i_{k-1}, b] = (G_0[:, i_0, :] @ ... @ G_{k-1}[:, i_{k-1}, :])[a, b]
+# which is what np.tensordot(..., 1) computes step by step (contraction of the last axis with the first axis).
+# `Z[0, ...]` / `Z[..., 0]` drop the leading / trailing axis at a fixed position (recorded in .lead / .trail); all other axes,
+# including those of length 1, stay.
+
+def _td_parts(v):
+    if isinstance(v, VArr) and v.ndim == 3 and v.tag == 'core' and v.t is not None:
+        return [v.t]
+    if isinstance(v, VArr) and v.tag == 'tdot' and v.lead is None and v.trail is None:
+        return list(v.t)
+    return None
+
+
+def mk_tdot(shape, parts, lead=None, trail=None):
+    v = VArr(shape, tuple(parts), 'tdot')
+    v.lead, v.trail = lead, trail
+    return v
+
+
+def tdot_entry(v, idx):
+    """The entry of a fully indexed 'tdot' array at the mode indices idx (leading / trailing axis already dropped)."""
+    if not (isinstance(v, VArr) and v.tag == 'tdot' and v.lead is not None and v.trail is not None and len(idx) == len(v.t)):
+        raise ContractMismatch('not a dense export of a chain of cores with both rank axes dropped')
+    m = T.sl(v.t[0], idx[0])
+    for g, i in zip(v.t[1:], idx[1:]):
+        m = T.mm(m, T.sl(g, i))
+    return T.ent(m, Z(v.lead), Z(v.trail))
+
+
+_orig_tensordot = M.FUNCS['np.tensordot']
+
+
+@model('np.tensordot')
+def m_tensordot_chain(ex, st, args, kwargs, node):
+    a, b = st.deref(args[0]), st.deref(args[1])
+    axes = args[2] if len(args) > 2 else kwargs.get('axes', 2)
+    pa, pb = _td_parts(a), _td_parts(b)
+    if isinstance(axes, int) and axes == 1 and pa is not None and pb is not None and len(pb) == 1:
+        used('np.tensordot(Z, G, 1) for a contracted chain of cores Z and a core G -> the chain extended by G '
+             '(entry [a, i.., b] = (product of the mode slices)[a, b]); contracted dimensions must agree')
+        ex.oblige(st, 'call-pre', 'tensordot-contracted-dims-agree', Z(a.shape[-1]) == Z(b.shape[0]), node)
+        return mk_tdot(tuple(a.shape[:-1]) + tuple(b.shape[1:]), pa + pb)
+    return _orig_tensordot(ex, st, args, kwargs, node)
+
+
+def _is_ellipsis(e):
+    return isinstance(e, ast.Constant) and e.value is Ellipsis
+
+
+_orig_index = M.arr_index
+
+
+def arr_index(ex, st, a, sl_, node):
+    if isinstance(a, VArr) and a.tag == 'tdot' and isinstance(sl_, ast.Tuple) and len(sl_.elts) == 2 and a.ndim >= 2:
+        e0, e1 = sl_.elts
+        if _is_ellipsis(e1) and not _is_ellipsis(e0) and not isinstance(e0, ast.Slice) and a.lead is None:
+            i = M.norm_index(ex, st, ex.need_num(st, ex.ev(e0, st), node), a.shape[0], node, 'array-index')
+            used('Z[i, ...] -> the sub-array at position i of the first axis (all other axes kept, also those of length 1)')
+            return mk_tdot(a.shape[1:], a.t, i, a.trail)
+        if _is_ellipsis(e0) and not _is_ellipsis(e1) and not isinstance(e1, ast.Slice) and a.trail is None:
+            i = M.norm_index(ex, st, ex.need_num(st, ex.ev(e1, st), node), a.shape[-1], node, 'array-index')
+            used('Z[..., i] -> the sub-array at position i of the last axis (all other axes kept, also those of length 1)')
+            return mk_tdot(a.shape[:-1], a.t, a.lead, i)
+    return _orig_index(ex, st, a, sl_, node)
+
+
+M.arr_index = arr_index
+
+
+@model('np.squeeze')
+def m_squeeze_chain(ex, st, args, kwargs, node):
+    """np.squeeze(Z) removes EVERY axis of length 1: the number of axes of the result depends on the mode sizes (one path per case)."""
+    a = st.deref(args[0])
+    if not (isinstance(a, VArr) and a.tag == 'tdot' and a.lead is None and a.trail is None and len(args) == 1 and not kwargs):
+        raise Unsupported('np.squeeze pattern')
+    used('np.squeeze(Z) -> every axis of length 1 is removed (a case split over the axes whose length may be 1)')
+    keep, fixed = [], {}
+    lead = trail = None
+    last = a.ndim - 1
+    for k, n in enumerate(a.shape):
+        if ex.decide(st, Z(n) == 1, node):
+            if k == 0:
+                lead = 0
+            elif k == last:
+                trail = 0
+            else:
+                fixed[k - 1] = 0
+        else:
+            keep.append(n)
+    out = mk_tdot(tuple(keep), a.t, lead, trail)
+    out.fixed = fixed
+    return out
